@@ -485,11 +485,24 @@ def gen_td_data(rng, ds):
     return out
 
 
+def td_sub(rng, g, where):
+    inner = sorted(td_star_vars(where)) or list(g.vars[:1])
+    x = rng.random()
+    proj = None if x < 0.2 else rng.sample(inner, rng.randint(1, len(inner))) if x < 0.85 else rng.sample(g.vars, 1)
+    return {"k": "sub", "q": {"distinct": False, "proj": proj, "where": where, "group": None, "count": None, "order": None}}
+
+
 def gen_td_one(rng, g, els):
     """one non-BGP element over few shared variables: small operands, so that each operator really decides rows"""
-    k = rng.choice(["optional", "optional", "optionalf", "minus", "minus", "filter", "bind", "values", "union"]
+    k = rng.choice(["optional", "optional", "optionalf", "minus", "minus", "filter", "bind", "values", "union", "sub", "sub"]
                    + (["graph", "graph"] if g.ds else []))
     small = lambda: {"k": "group", "els": [td_bgp(rng, g, 1, 1)]}      # noqa: E731
+    if k == "sub":
+        w = small()
+        if rng.random() < 0.4:
+            w["els"].append(rng.choice([{"k": "filter", "e": gen_td_expr(rng, g, 1)}, {"k": "optional", "g": small()},
+                                        {"k": "minus", "g": small()}]))
+        return td_sub(rng, g, w)
     if k == "optional":
         return {"k": "optional", "g": small()}
     if k == "optionalf":
@@ -549,7 +562,7 @@ def gen_td_push(rng, g):
     inner = [b1]
     for _ in range(r.choice([1, 1, 2])):
         k = r.choice(["optional", "optionalf", "minus", "minus", "minusf", "minusf", "filter", "filter", "bind", "bindc",
-                      "values", "union"] + (["graph", "graphv"] if g.ds else []))
+                      "values", "union", "sub", "sub"] + (["graph", "graphv"] if g.ds else []))
         if k == "optional":
             inner.append({"k": "optional", "g": {"k": "group", "els": [{"k": "bgp", "ts": pat()}]}})
         elif k == "optionalf":
@@ -569,6 +582,12 @@ def gen_td_push(rng, g):
                 inner.append({"k": "filter", "e": ex()})
         elif k == "values":
             inner.append({"k": "values", "vs": [o], "rows": [[t] for t in r.sample(g.subs + [None], 2)]})
+        elif k == "sub":        # the pushed variable inside a sub-select, projected or not
+            w = {"k": "group", "els": [{"k": "bgp", "ts": pat()}]}
+            if r.random() < 0.3:
+                w["els"].append({"k": "filter", "e": ex()})
+            inner.append({"k": "sub", "q": {"distinct": False, "proj": r.choice([[z], [z, o], [o], None, [u]]), "where": w,
+                                            "group": None, "count": None, "order": None}})
         elif k == "union":
             inner.append({"k": "union", "gs": [{"k": "group", "els": [{"k": "bgp", "ts": pat()}]},
                                               {"k": "group", "els": [{"k": "bgp", "ts": [[z, pr(), u]]}]}]})
@@ -662,6 +681,10 @@ def td_star_vars(node, out=None):
     if isinstance(node, dict):
         if node.get("k") == "bind":
             out.add(node["v"])
+            return out
+        if node.get("k") == "sub":      # only what the sub-select projects
+            sq = node["q"]
+            out |= set(sq["proj"]) if sq["proj"] is not None else td_star_vars(sq["where"])
             return out
         for v in node.values():
             td_star_vars(v, out)
@@ -2119,6 +2142,10 @@ def _td_alg(g):
             G = join(G, ("values", e["vs"], e["rows"]))
         elif k == "bind":
             G = ("extend", e["v"], e["e"], G)
+        elif k == "sub":        # ToMultiSet(Project(M, PV)); no modifiers in this fragment
+            sq = e["q"]
+            pv = list(sq["proj"]) if sq["proj"] is not None else sorted(td_star_vars(sq["where"]))
+            G = join(G, ("sub", pv, _td_alg(sq["where"])))
         else:
             raise ValueError(k)
     if filt is not None:
@@ -2144,6 +2171,8 @@ def _td_tokens(a, vs):
         return ["extend", _pt(a[1], vs), _pt(a[2], vs)] + _td_tokens(a[3], vs)
     if k == "graph":
         return ["graph", _pt(a[1], vs)] + _td_tokens(a[2], vs)
+    if k == "sub":
+        return ["sub", str(len(a[1]))] + [str(vs.index(v)) for v in a[1]] + _td_tokens(a[2], vs)
     if k == "values":
         out = ["values", str(len(a[2]))]
         for r in a[2]:
